@@ -129,58 +129,55 @@ def pdu_check(ctx, rep, rule):
         rep.missing(rule, "enum SnmpPdu")
         return
     variants = {v["discr"]: v["name"] for v in enum_ty["variants"]}
-    # the switch on discriminant(*self)
-    sw = None
-    for b in body.live_blocks():
-        t = b.term
-        if t and t["k"] == "switch":
-            term = prov.operand(t["discr"])
-            if term[0] == "discr" and term[1] == ("arg", 1):
-                sw = b
-                break
-    if sw is None:
-        rep.missing(rule, "SnmpPdu::check: match on self")
-        return
-    seen = {}
-    for tg, lb in sw.edges():
-        if lb[0] != "case":
-            continue
-        vname = variants.get(lb[1], str(lb[1]))
-        region = flow.exclusive_region(body, sw.idx, tg)
-        outcome = None
-        for bi in sorted(region):
-            bb = body.blocks[bi]
-            for st in bb.stmts:
-                if st["k"] == "assign" and st["place"]["l"] == 0 and not st["place"]["p"]:
-                    outcome = ("const", prov.rvalue(st["rv"]))
-            t = bb.term
-            if t and t["k"] == "call" and t["dest"]["l"] == 0:
-                outcome = ("call", prov.call_term(t))
-        seen[vname] = outcome
+    # decision table by cells: (variant of self, outcome of request_id.check(<variant>.request_id)) -> value returned.
+    # For every non-Report variant the result must be exactly the outcome of the comparison (nothing else can make it true
+    # or false); a Report is always accepted (RFC 3414 discovery and error reports carry ids the agent could not recover).
+    from .. import cells
+    idx = {name: dno for dno, name in variants.items()}
+
+    def is_id_check(t, vname):
+        if not (t[0] == "call" and (t[1] or "").endswith("RequestId::check") and len(t[2]) == 2 and t[2][0] == ("arg", 2)):
+            return False
+        x = t[2][1]
+        names = []
+        while x[0] == "f":
+            names.append(x[2])
+            x = x[1]
+        return names[:1] == ["request_id"] and x == ("dc", ("arg", 1), vname)
+
+    def returned(vname, chk):
+        seen_check = []
+
+        def ev(t):
+            if t == ("discr", ("arg", 1)):
+                return idx[vname]
+            if chk is not None and t[0] == "call" and (t[1] or "").endswith("RequestId::check"):
+                seen_check.append(is_id_check(t, vname))
+                return chk if is_id_check(t, vname) else None
+            return None
+        blocks, _ = cells.feasible(body, prov, ev)
+        val = cells.eval_term(flow.Prov(body, only_blocks=blocks).local(0), ev)
+        calls_ = [bb for bb in body.calls() if bb.idx in blocks and (callee_path(bb.term) or "").endswith("RequestId::check")]
+        good_args = bool(calls_) and all(is_id_check(flow.Prov(body, only_blocks=blocks).call_term(bb.term), vname) for bb in calls_)
+        return val, good_args
     for vname in ("GetRequest", "GetNextRequest", "GetBulkRequest", "GetResponse"):
-        o = seen.get(vname)
         key = "SnmpPdu::check|" + vname
-        if o is None:
-            rep.inconclusive(rule, key, "arm not classified", body.loc())
+        if vname not in idx:
+            rep.missing(rule, "SnmpPdu::" + vname)
             continue
-        if o[0] == "call" and (o[1][1] or "").endswith("RequestId::check"):
-            a = o[1][2]
-            x = a[1]
-            names = []
-            while x[0] == "f":
-                names.append(x[2])
-                x = x[1]
-            good = a[0] == ("arg", 2) and names[:1] == ["request_id"] and x == ("dc", ("arg", 1), vname)
-            rep.check(rule, key, good, "request_id.check(<%s>.request_id)" % vname,
-                      "arm compares %s" % flow.fmt(o[1]), body.loc(), obligation=True)
-        elif o[0] == "const":
-            rep.violation(rule, key, "arm for %s returns the constant %s instead of comparing the request-id: any %s is "
-                          "accepted" % (vname, flow.fmt(o[1]), vname), body.loc(), obligation=True)
-        else:
-            rep.inconclusive(rule, key, "arm outcome %s" % (flow.fmt(o[1]),), body.loc())
-    o = seen.get("Report")
-    rep.check(rule, "SnmpPdu::check|Report", o is not None and o[0] == "const" and o[1] == ("const", True),
-              "Report bypasses the request-id test (by design, RFC 3414 discovery)", "Report arm is %s" % (o,), body.loc())
+        (v1, a1), (v0, a0) = returned(vname, 1), returned(vname, 0)
+        if not (a1 and a0):
+            rep.violation(rule, key, "the %s arm does not compare the message's own request id with the outstanding one "
+                          "(request_id.check(<%s>.request_id) not found on the arm)" % (vname, vname), body.loc(), obligation=True)
+            continue
+        rep.check(rule, key, v1 == 1 and v0 == 0, "accepted iff request_id.check(<%s>.request_id)" % vname,
+                  "a %s is accepted or refused for a reason other than its request id (result with a matching id: %s, with a foreign id: %s; "
+                  "None = depends on something else)" % (vname, v1, v0), body.loc(), obligation=True)
+    if "Report" in idx:
+        v, _ = returned("Report", None)
+        rep.check(rule, "SnmpPdu::check|Report", v == 1, "Report bypasses the request-id test (by design, RFC 3414 discovery)",
+                  "a Report is not always accepted (result %s): error reports whose ids the agent could not recover are dropped and the "
+                  "caller sees a timeout instead of SnmpAuthError" % (v,), body.loc(), obligation=True)
     # RequestId::check is equality on the stored id
     rb = facts.need("reqid::RequestId::check")
     rp = flow.Prov(rb)
